@@ -20,9 +20,11 @@ ASSUMPTIONS = ['the bound for the allow-listed sites is argued from the builder\
 # (type of self of the function, receiver path, method) -> (bound, needs clear-dominance)
 ALLOW = {
     ('raw::build::UnfinishedNodes', 'Vec<raw::build::BuilderNodeUnfinished'): ('one frame per byte of the current key; frames are popped by compile_from before new ones are pushed', False),
-    ('raw::build::BuilderNodeUnfinished', 'Vec<raw::Transition'): ('one transition per distinct next byte (<= 256), the node is moved out when frozen', False),
     ('raw::build::Builder', 'Vec<u8'): ('the remembered key is cleared before it is refilled', True),
-    ('raw::build::BuilderNode', 'Vec<raw::Transition'): ('cache-cell refresh: cleared before it is refilled (<= 256 transitions)', True),
+    # keyed by the type that DECLARES the container: element-wise growth (one transition per distinct next byte, <= 256, the node is
+    # moved out when frozen) needs no clear; a bulk refill (cache-cell refresh via clone_from/extend) must be dominated by clear()
+    ('raw::build::BuilderNode', 'Vec<raw::Transition'): {'push': ('one transition per distinct next byte (<= 256), the node is moved out when frozen', False),
+                                                         'bulk': ('cache-cell refresh: cleared before it is refilled (<= 256 transitions)', True)},
 }
 # (owning type, container type) - by type, so that renaming a field is not an alarm
 INVENTORY = {('raw::build::Builder', 'Option<Vec<u8'): 1, ('raw::registry::Registry', 'Vec<raw::registry::RegistryCell'): 1,
@@ -33,6 +35,29 @@ def self_adt(f):
     if f.impl:
         return adt_base(f.impl['self_ty'])
     return None
+
+
+def owner_adt(lib, f, loc):
+    """the type that declares the container field a growth call is applied to (not the type whose method happens to contain the call)"""
+    ty = f.local_ty(loc[0])
+    a = adt_base(ty)
+    owner = a
+    for el in loc[1:]:
+        if el.startswith('@') or el.startswith('['):
+            continue
+        d = lib.adts.get(a)
+        nxt = None
+        if d:
+            for v in d['variants']:
+                for fd in v['fields']:
+                    if fd['name'] == el:
+                        nxt = fd['ty']
+        if nxt is None:
+            break
+        owner = a
+        ty = nxt
+        a = adt_base(ty)
+    return owner if owner in lib.adts else None
 
 
 def recv_type(lib, f, loc):
@@ -80,11 +105,14 @@ def run(ctx):
     for f, t, g, loc, kind in sites:
         if kind != 'state':
             continue
-        key = (self_adt(f), recv_type(lib, f, loc))
+        key = ((owner_adt(lib, f, loc) or self_adt(f)), recv_type(lib, f, loc))
         path = '.'.join(str(x) for x in loc[1:])
         bid = next(b for b, tt in f.calls() if tt is t)
         if key in ALLOW:
-            bound, need_clear = ALLOW[key]
+            entry = ALLOW[key]
+            if isinstance(entry, dict):
+                entry = entry['push' if g.rsplit('::', 1)[-1] == 'push' else 'bulk']
+            bound, need_clear = entry
             okc = (not need_clear) or growth.cleared_before(f, bid, loc)
             ctx.check(R, okc, 'site:%s.%s' % (key[0], path), 'growth of %s is allow-listed only because it is cleared first, and it no longer is' % path, fn=f, at=t.get('span'), detail=bound)
         else:
